@@ -162,6 +162,7 @@ func vfC09(c *hx.Ctx) {
 			c.Explore(fmt.Sprintf("wire-batch-io/mode=%d/cipher=%s/fec=%d,%d", bm, cf.Cipher, cf.DS, cf.PS), vfPairParams(cf, 0), 0, vfPairRun(cf, 0, body))
 		}
 	}
+	vfC09SharedCipher(c)
 	vfC09EntropyConcurrent(c)
 	// nonce freshness of the real entropy source
 	if c.Shard == 0 && !c.Skip("entropy") {
